@@ -20,7 +20,11 @@ def make_history(R, nfiles):
     n = R.randint(3, 14)
     for _ in range(n):
         k = R.random()
-        if k < 0.30:
+        if k < 0.10:
+            # several commands on one line: a write between edits, edits after a write
+            one = [b'1s/^/x/', b'$s/$/y/', b'1d', b'1y|$pu', b'%s/a/b/g', b'w', b'w', b'w!', b'u', b'1,1w! other']
+            ops.append((b'|'.join(R.choice(one) for _ in range(R.randint(2, 4))), 'compound'))
+        elif k < 0.30:
             c = R.choice([b'1s/^/x/', b'$s/$/y/', b'1d', b'$d', b'1,2d', b'$a\nnew line\n.', b'1i\ntop\n.', b'1c\nchanged\n.', b'1,$!sort', b'1y|$pu', b'g/x/s/x/z/', b'%s/a/b/g'])
             ops.append((c, 'mod'))
         elif k < 0.45:
